@@ -389,6 +389,57 @@ def bounds_clip_targets():
     return [RawTarget('probability_bounds', txt, ['bounds', 'v'], ['clipped'])]
 
 
+def wprod_targets():
+    """IPTW.fit: the per-row weight handed to the GEE (df['_ipfw_']) in each of the four configurations
+    (missing-outcome weights present or not) x (user weights column given or not)."""
+    IP = os.path.join(REPO, 'zepid/causal/ipw/IPTW.py')
+    fn = find_function(ast.parse(open(IP).read()), 'IPTW.fit')
+    tops = [st for st in fn.body if isinstance(st, ast.If) and ast.unparse(st.test) == 'self.ipmw is None']
+    if len(tops) != 1:
+        raise TranslateError('expected one `if self.ipmw is None:` in IPTW.fit, found %d' % len(tops))
+    # every later use of the column must be as the GEE weights
+    uses = [n for n in ast.walk(fn) if isinstance(n, ast.keyword) and n.arg == 'weights']
+    if not uses or any(ast.unparse(u.value) != "df['_ipfw_']" for u in uses):
+        raise TranslateError("IPTW.fit no longer passes df['_ipfw_'] as the GEE weights")
+
+    class Ren(ast.NodeTransformer):
+        def visit_Subscript(self, n):
+            if ast.unparse(n) == 'self.df[self._weight_]':
+                return ast.copy_location(ast.Name(id='w', ctx=ast.Load()), n)
+            return self.generic_visit(n)
+
+        def visit_Attribute(self, n):
+            if ast.unparse(n) in ('self.iptw', 'self.ipmw'):
+                return ast.copy_location(ast.Name(id=n.attr, ctx=ast.Load()), n)
+            return self.generic_visit(n)
+
+    def run(stmts, env):
+        val = None
+        for st in stmts:
+            if isinstance(st, ast.If):
+                t = ast.unparse(st.test)
+                if t not in env:
+                    raise TranslateError('undecidable test `%s` in the weight block of IPTW.fit' % t)
+                r = run(st.body if env[t] else st.orelse, env)
+                val = r if r is not None else val
+            elif isinstance(st, ast.Assign) and len(st.targets) == 1 and ast.unparse(st.targets[0]) == "df['_ipfw_']":
+                val = st.value
+            else:
+                raise TranslateError('statement `%s` in the weight block of IPTW.fit' % ast.unparse(st)[:60])
+        return val
+    out = []
+    for miss in (False, True):
+        for usr in (False, True):
+            v = run([tops[0]], {'self.ipmw is None': not miss, 'self._weight_ is None': not usr})
+            if v is None:
+                raise TranslateError("no assignment to df['_ipfw_'] for missing-weights=%s, user-weights=%s" % (miss, usr))
+            v = Ren().visit(ast.parse(ast.unparse(v), mode='eval').body)
+            tr = FnTranslator('iptw_fit_weight_%s_%s' % ('ipmw' if miss else 'noipmw', 'w' if usr else 'now'), ['iptw', 'ipmw', 'w'])
+            tr.returns = [('weight', tr.expr(v))]
+            out.append(Translated(tr))
+    return out
+
+
 GROUPS = {
     'tmle': tmle_targets,
     'calc': calc_targets,
@@ -398,6 +449,7 @@ GROUPS = {
     'ic': ic_targets,
     'pool': pool_targets,
     'pbounds': bounds_clip_targets,
+    'wprod': wprod_targets,
 }
 
 
